@@ -140,7 +140,7 @@ def handle (req : Json) : Except String Json := do
     let dirs ← (← getArr req "dirs").toList.mapM (·.getBool?)
     let keys ← (← getArr req "keys").toList.mapM keyOfJson
     let limit ← getNat req "limit"
-    match walkPages (ltKey dirs) keys limit (keys.length + 2) none with
+    match walkPages (ltKey dirs) Limits.real id keys limit (keys.length + 2) none with
     | none => return Json.mkObj [("failed", true)]
     | some ps => return Json.mkObj [("failed", false), ("pages", Json.arr (ps.map respToJson).toArray)]
   | "page" =>
@@ -154,7 +154,7 @@ def handle (req : Json) : Except String Json := do
         let k ← keyOfJson (← c.getObjVal? "key")
         let rt ← getNat c "returned"
         pure (some ({ key := k, returned := rt } : Cur DKey))
-    match page (ltKey dirs) keys cur limit (getNatD req "skipped" 0) with
+    match page (ltKey dirs) Limits.real keys cur limit (getNatD req "skipped" 0) with
     | .ok r => return Json.mkObj [("class", "ok"), ("resp", respToJson r)]
     | .error .stale => return Json.mkObj [("class", "error"), ("err", "stale")]
     | .error .advance => return Json.mkObj [("class", "error"), ("err", "advance")]
